@@ -10,7 +10,7 @@ use hifitime::{is_gregorian_valid, Epoch, TimeScale};
 
 pub fn meta() -> Meta {
     Meta {
-        rule: "events = maybe_from_gregorian(y,m,d,h,mi,s,ns,scale) (+ _utc/_tai, is_gregorian_valid and, for accepted inputs, the panicking from_gregorian* / _at_midnight / _at_noon / _hms family). Expected (M-CAL): accept/reject partition of the statement; for accepted inputs with second < 60 parts == days(ref date -> date)*86400 s + time of day - ref time of day, refs 1900-01-01 00:00 (TAI/TT/UTC), 2000-01-01 12:00 (ET/TDB), 1980-01-06 (GPST/QZSST), 1999-08-22 (GST), 2006-01-01 (BDT); rejection must be Err, never a panic or another date. second = 60 must be accepted at 23:59 on the 27 insertion days and rejected elsewhere. Don't-care: hour == 24, ns == 1e9, second = 60 on 1971-12-31. Generation: enumerated calendar days (quick: every day of 1850-2150 in all nine scales + every 7th day of years 1-9999 with the scale rotated; thorough: every day x nine scales) x {00:00:00.0, 23:59:59.999999999, random time}; sampled years out to +-30000; rejection lattice (each field at 0, max, max+1, 255/u32::MAX crossed with valid others); second = 60 on every 30 Jun / 31 Dec 1960-2030 at 23:59 and at other times. Non-trivial = every accepted construction (distinct (date,time,scale) hashes) and every rejection-lattice point.",
+        rule: "events = maybe_from_gregorian(y,m,d,h,mi,s,ns,scale) (+ _utc/_tai, is_gregorian_valid and, for accepted inputs, the panicking from_gregorian* / _at_midnight / _at_noon / _hms family). Expected (M-CAL): accept/reject partition of the statement; for accepted inputs with second < 60 parts == days(ref date -> date)*86400 s + time of day - ref time of day, refs 1900-01-01 00:00 (TAI/TT/UTC), 2000-01-01 12:00 (ET/TDB), 1980-01-06 (GPST/QZSST), 1999-08-22 (GST), 2006-01-01 (BDT); rejection must be Err, never a panic or another date. second = 60 must be accepted at 23:59 on the 27 insertion days and rejected elsewhere. Don't-care: hour == 24, ns == 1e9, second = 60 on 1971-12-31. Generation: enumerated calendar days (quick: every day of 1850-2150 in all nine scales + every 7th day of years 1-9999 with the scale rotated; thorough: every day x nine scales) x {00:00:00.0, 23:59:59.999999999, random time}; sampled years out to +-30000; rejection lattice (each field at 0, max, max+1, 255/u32::MAX crossed with valid others); second = 60 on every 30 Jun / 31 Dec 1960-2030 at 23:59 and at other times. Non-trivial = every accepted construction (distinct (date,time,scale) hashes) and every rejection-lattice point. Rounds 7-9: the full cross of the special values of all six fields (7x8x5x4x5x5 values x eight years, 224 000 tuples, one in sixteen also through the panicking family); the panicking family on every accepted 60th second.",
         assumptions: &["M-CAL closed forms (self-tested against a naive accumulator at start-up)"],
         mandatory: &["valid/first-ns-of-day", "valid/last-ns-of-day", "valid/feb-29", "valid/before-1900", "valid/year-beyond-9999", "valid/negative-year", "reject/month", "reject/day", "reject/feb-29-non-leap", "reject/hour", "reject/minute", "reject/second", "reject/nanos", "leap/accepted-insertion-day", "leap/rejected-other-time", "leap/rejected-other-date"],
         thorough_scale: 1,
